@@ -451,6 +451,8 @@ def _call(case):
         before = arr.copy()
         h, c = M.convex_hull_ijv(arr, _indexes(case))
         r = _res(h, c)
+        if len(case["ijv"]) == 0:
+            r["empty_ijv"] = True
         r["input_kept"] = bool(np.array_equal(arr, before))
         return r
     a = np.array(case["img"], int).reshape(len(case["img"]), -1)
@@ -525,6 +527,8 @@ def _cmp(o, m, what, idx=None, big=False):
     if isinstance(m, dict):
         return "%s: model failed: %s" % (what, m)
     if m == -1:
+        if isinstance(o, dict) and o.get("rows") == [] and "counts" in o and not any(o["counts"]) and o.get("empty_ijv"):
+            return None
         return None if _bad(o) and "exc" in o else "%s: model rejects the input, implementation returned %s" % (what, str(o)[:200])
     if _bad(o):
         return "%s: implementation raised/crashed: %s" % (what, str(o)[:300])
@@ -563,6 +567,14 @@ def _all_ijv(case):
     return [[int(i), int(j), int(a[i, j])] for i, j in np.argwhere(a > 0)]
 
 
+def _empty_ok(case, o):
+    """Empty point list with non-negative requests: the limiting case of 'requested labels without pixels'. As is, the kernel
+    raises ValueError (max of an empty array); the repair proposed in reports/repairs/C02-empty-ijv.diff returns zero counts.
+    Both are accepted; anything else (vertices, wrong count vector) is not."""
+    return (case["fn"] == "ijv" and len(case["ijv"]) == 0 and all(x >= 0 for x in case["idx"]) and isinstance(o, dict)
+            and "exc" not in o and "crash" not in o and o.get("rows") == [] and o.get("counts") == [0] * len(case["idx"]))
+
+
 def _malformed(case):
     """Calls the entry point rejects (empty ijv, negative entries; for label images only when the kernel is reached)."""
     if case["fn"] == "ijv":
@@ -576,6 +588,8 @@ def check(ctx, cases, outs):
     todo = []
     for k, (c, o) in enumerate(zip(cases, outs)):
         if _malformed(c):
+            if _empty_ok(c, o):
+                continue
             if not (isinstance(o, dict) and "exc" in o):
                 res[k] = "malformed call (empty point list / negative entry) was not rejected: %s" % (str(o)[:200],)
             continue
@@ -721,17 +735,26 @@ def shrink_candidates(case):
 
 MANIFEST = {
     "level_text": (
-        "Machine-checked proof (Coq 8.16) about an executable Gallina model of _convex_hull.convex_hull_ijv as "
-        "written (lexsort, request walk, column envelopes with sentinels, the three EMIT loops with CONVEX and the "
-        "in-place buffer guard, reorder through argsort(argsort)) and of cpmorphology.convex_hull (outline pre-filter): "
-        "EMIT-loop invariants, vertices are pixels, the verified checker hull_ok/batch_ok is sound for the declarative "
-        "hull specification and every vertex it accepts is an extreme point. The model is tied to the code by exact "
-        "equality of (hull array, counts) on both entry points, every requested label in company and alone; the "
-        "verified checker is evaluated on the implementation's own output."),
+        "Machine-checked proof (Coq 8.16, 46 theorems, no axioms) about an executable Gallina model of "
+        "_convex_hull.convex_hull_ijv as written and of cpmorphology.convex_hull: for every well-formed label the per-label "
+        "kernel returns a polygon meeting the full specification (vertices are pixels, no repeated vertex, every cyclic "
+        "triple strictly convex in one sense, every pixel inside or on: C02_hull_label_correct), its vertices are exactly the "
+        "extreme points and the list is determined up to rotation (C02_hull_exactly_extreme, C02_hull_label_unique), the "
+        "in-place guard never changes the result and the output never outgrows the label's rows (C02_guard_irrelevant, "
+        "C02_hull_no_overflow), and the batch function / the image entry point return these polygons in request order with "
+        "count 0 for absent labels, for every input and every repeat-free index list (C02_convex_hull_ijv_correct, "
+        "C02_convex_hull_correct). These theorems are about exact integer arithmetic; the kernel computes the turn test in C "
+        "int, which is proved equivalent for coordinates <= 46340 (C02_wrap_transfer, sharp) and refuted above "
+        "(C02_convex_wrap_refuted = known finding F22). The model as written (int32 wrap included) is tied to the code by "
+        "exact equality of (hull array, counts) on both entry points, every requested label in company and alone, all dtypes, "
+        "layouts, index-list types and coordinates up to 2^31-1; the verified checker is evaluated on every output."),
     "level_note": (
-        "Trusted: Coq kernel + vm_compute; extraction (ExtrOcamlBasic only) and the S-expression driver; the Python "
-        "harness; NumPy lexsort/argsort/argwhere as modelled; int32 arithmetic modelled as Z (|coordinates| < 2^15). "
+        "Known finding F22 (C int overflow of the cross product above coordinate 46340; .pyx defect, not rebuildable here): "
+        "reported as KNOWN-FINDING, attributed only when the as-written int32 model reproduces the output and the exact model "
+        "differs. Trusted: Coq kernel + vm_compute; extraction (ExtrOcamlBasic only) and the S-expression driver; the Python "
+        "harness; NumPy lexsort/argsort/argwhere as modelled; C int arithmetic as wrap32 (binary built with -fwrapv). The "
+        "batch-level equality of the as-written and the exact model inside the bound is tested on every run, proved per label. "
         "The tie between model and code is differential, not a proof about Cython."),
-    "technique": "Coq proof over executable model + verified checker + exact differential correspondence",
+    "technique": "Coq proof over executable model + verified checker + exact differential correspondence + model attribution of a known finding",
     "design_ref": "DESIGN.md section 7, C02",
 }
